@@ -67,12 +67,13 @@ def labels (p : List Step) : List Nat := p.map (·.label)
 
 /-! ## Greedy decoding -/
 
-/-- `Iterator::max_by` on `enumerate()`: keeps the current best `x` only when
-`compare(x, y) == Greater`, so among equal maxima the **last** index wins. -/
+/-- `max_position_by` in `src/ops/reduce.rs` (`select_max_index`): the current best is
+replaced only when `compare(item, best) == Greater`, so among equal maxima the **first**
+index wins (ONNX `select_last_index = 0`). -/
 def argmaxGo {α} (ops : Ops α) : Nat → α → Nat → List α → Nat
   | bi, _, _, [] => bi
   | bi, bv, i, y :: ys =>
-    if ops.argGt bv y then argmaxGo ops bi bv (i + 1) ys else argmaxGo ops i y (i + 1) ys
+    if ops.argGt y bv then argmaxGo ops i y (i + 1) ys else argmaxGo ops bi bv (i + 1) ys
 
 /-- `arg_max` over one lane; `none` for an empty lane (`OpError` → `expect` panics). -/
 def argmaxRow {α} (ops : Ops α) : List α → Option Nat
